@@ -3,6 +3,7 @@
 CAP (strict) over spiftool_split, spif_tok_eval, spiftool_get_word, spiftool_get_pword and spiftool_num_words: the
 scan cursor stays at or before the terminator on every path (including a trailing backslash, a quote inside the other
 kind of quote, an explicit delimiter set), every token buffer write is in bounds, and every scanner loop advances.
+S2: the word loops of get_word/get_pword/num_words carry only their cursors and counters from word to word (LOOPSTATE).
 The token lists themselves (the grammar) are not decided."""
 from .. import facts, expr as X, loopstate
 from ..facts import walk
